@@ -420,6 +420,7 @@ func workerLoop(agg *aggregate, take func() int, kf *findingsFile, deadline time
 			agg.mu.Lock()
 			agg.results = append(agg.results, r)
 			agg.died = append(agg.died, r)
+			agg.stopped = true // a dead or hung worker is triaged before more work is handed out
 			agg.mu.Unlock()
 			return true
 		}
@@ -430,6 +431,9 @@ func workerLoop(agg *aggregate, take func() int, kf *findingsFile, deadline time
 			agg.mu.Lock()
 			agg.results = append(agg.results, r)
 			agg.died = append(agg.died, r)
+			if os.Getenv("VERIF_NOSTOP") == "" {
+				agg.stopped = true
+			}
 			agg.mu.Unlock()
 			return true
 		}
